@@ -83,7 +83,26 @@ Value& POWExpression::value(Context & ctx) const
     {
       if (a2.isNull() || a1.isNull())
         return LVAL2(Value(Value::type_integer), a1, a2);
-      Value val(Integer(std::pow(*a1.integer(), *a2.integer())));
+      Integer b = *a1.integer();
+      Integer e = *a2.integer();
+      if (e >= 0)
+      {
+        /* exact result modulo 2^64 (wrap around on overflow) */
+        uint64_t r = 1, m = uint64_t(b), n = uint64_t(e);
+        while (n)
+        {
+          if (n & 1)
+            r *= m;
+          m *= m;
+          n >>= 1;
+        }
+        Value val{Integer(r)};
+        return LVAL2(val, a1, a2);
+      }
+      /* negative exponent: the magnitude is at most 1 unless base is 0 */
+      if (b == 0)
+        throw RuntimeError(EXC_RT_DIVIDE_BY_ZERO);
+      Value val(Integer(std::pow(b, e)));
       return LVAL2(val, a1, a2);
     }
     case Type::IMAGINARY:
